@@ -159,6 +159,59 @@ def class_object_union_probe(ctx: Ctx, eng: morph.Engine) -> bool:
     return False
 
 
+def policy_layout_suite(ctx: Ctx, n: int):
+    """models behind generated name_mapping options (nested paths, extra_in = skip / forbid / collect / kwargs, omit_default) and
+    data with optional keys omitted, unknown keys at every level, wrong leaves: the three modes agree on acceptance, on the value,
+    and the DISABLE / FIRST error is among those collected under ALL; dumping agrees too"""
+    from adaptix import DebugTrail, Retort
+    from adaptix.load_error import LoadError
+
+    from harness import layouts
+    rng = ctx.rng
+    for i in range(n):
+        case = layouts.gen_case(rng, i)
+        cls = case["cls"]
+        try:
+            retorts = {m: Retort(recipe=case["recipe"](), debug_trail=getattr(DebugTrail, m)) for m in morph.MODES}
+            st = rng.getstate()
+            goods = {}
+            for m in morph.MODES:
+                rng.setstate(st)
+                goods[m] = case["good"](rng, retorts[m])[1]
+        except Exception as e:  # noqa: BLE001
+            ctx.dist[f"policy-layout:not-built:{type(e).__name__}"] += 1
+            continue
+        desc = dict(case["desc"], suite="policy-layout")
+        if not (goods["DISABLE"] == goods["FIRST"] == goods["ALL"]):
+            ctx.fail("dump-value:policy-layout", f"modes dump different data: {goods}", desc)
+            continue
+        for _ in range(5):
+            datum, tags = layouts.mutate(rng, case, goods["ALL"])
+            outs = {}
+            for m in morph.MODES:
+                outs[m] = morph.canon_outcome(morph.run_real(retorts[m].get_loader(cls), datum))
+            kinds = {m: o["r"] for m, o in outs.items()}
+            c = dict(desc, datum=repr(datum)[:300], tags=tags)
+            ctx.note_case(c, nontrivial=bool(tags), kind=f"policy-layout:{case['extra_mode']}:{'+'.join(tags) or 'valid'}"[:80])
+            if "escape" in kinds.values():
+                if kinds["ALL"] != "escape":
+                    ctx.fail("accept-unexpected-error:policy-layout", f"an unexpected error escapes under some mode but ALL ends with "
+                             f"{kinds['ALL']!r}: {kinds}", c)
+                continue
+            if len(set(kinds.values())) != 1:
+                ctx.fail("accept:policy-layout", f"modes disagree on acceptance of {datum!r:.160} (extra_in={case['extra_mode']}, "
+                         f"{tags}): {kinds}", c)
+                continue
+            if kinds["ALL"] == "ok":
+                if not (outs["DISABLE"] == outs["FIRST"] == outs["ALL"]):
+                    ctx.fail("value:policy-layout", f"modes load different values from {datum!r:.160}", c)
+            else:
+                for m in ("DISABLE", "FIRST"):
+                    if not corresponds(outs[m]["e"], outs["ALL"]["e"]):
+                        ctx.fail(f"error-correspondence:{m}:policy-layout", f"the {m} error {outs[m]['e']['cls']} is not among the errors "
+                                 f"collected under ALL for {datum!r:.160}", dict(c, single=outs[m]["e"], all=outs["ALL"]["e"]))
+
+
 def typeddict_dump_suite(ctx: Ctx, n: int):
     """model dumpers with OPTIONAL output fields (TypedDict NotRequired keys): the three generated dumpers must agree on
     whether dumping succeeds, also when a field's own dumper fails with the accessor's exception class (KeyError)"""
@@ -261,6 +314,7 @@ def run(ctx: Ctx):
     class_object_union_probe(ctx, eng)
     optional_model_loads(ctx, eng, ctx.budget(40, 800))
     typeddict_dump_suite(ctx, ctx.budget(60, 1500))
+    policy_layout_suite(ctx, ctx.budget(80, 1500))
     specs = eng.gen_specs(ctx.budget(160, 2500), 3 if ctx.tier == "quick" else 4, user_leaves=True)
     recs = eng.load_records(specs, suite="load", n_valid=2, n_corrupt=3, n_hostile=2)
     for rec in recs:
@@ -285,6 +339,7 @@ def run(ctx: Ctx):
 
 def search(ctx: Ctx):
     typeddict_dump_suite(ctx, 600)
+    policy_layout_suite(ctx, 800)
     eng = morph.Engine(ctx)
     eng.drv = None
     specs = eng.gen_specs(1500, 4, user_leaves=True)
